@@ -752,3 +752,38 @@ func init() {
 		}
 	})
 }
+
+func init() {
+	// C15: block fee totals, ranges and averages for blocks whose transaction count needs a 3-byte
+	// compact size (252, 253, 254, 300 transactions): the count prefix is part of the block weight
+	regExtra("C15", func(r *Runner) {
+		counts := []int{252, 253, 254}
+		if r.tier != "quick" {
+			counts = append(counts, 255, 256, 300, 600)
+		}
+		for _, n := range counts {
+			b := &blocks.Block{Header: r.genHeader()}
+			var keys []tx.PrevOut
+			var vals []uint64
+			for j := 0; j < n; j++ {
+				t, k, v := r.feeTxCase(0)
+				b.Transactions = append(b.Transactions, t)
+				if j > 0 {
+					keys = append(keys, k...)
+					vals = append(vals, v...)
+				}
+			}
+			r.Do("fee.block", []string{hx(b.Bytes()), tableArg(keys, vals)}, "fee-block-count-boundary", true, fmt.Sprintf("%d transactions", n))
+		}
+	})
+	// C17: numbers pushed as zero bytes through an explicit push opcode, and other empty explicit pushes
+	regExtra("C17", func(r *Runner) {
+		for _, s := range [][]byte{{0x4c, 0x00}, {0x4d, 0x00, 0x00}, {0x4e, 0, 0, 0, 0}, {0x4c, 0x00, 0x51}, {0x4d, 0, 0, 0x87}, {0x4e, 0, 0, 0, 0, 0xab}, {0x00}, {0x4f}, {0x01}, {0x4c}, {0x4c, 0x01}} {
+			for _, op := range []string{"read.num", "read.data", "script.decompile", "script.stackify"} {
+				if _, ok := ops[op]; ok {
+					r.DoMode(op, []string{hx(s)}, "empty-explicit-push", true, "", ops[op].mode)
+				}
+			}
+		}
+	})
+}
